@@ -163,7 +163,7 @@ def run_connection(which: str, sess: Session):
                 ns = namespace()
                 O.load(module, [qual], ns)
 
-                class Self:
+                class Self(O.auto_methods("circuit/base", "Connection", ns)):
                     _elements = kids
                 f = Arr("finite", sym("f"))
                 f.__class__ = type("F", (Arr,), {"__rmul__": lambda s, o: SQ.of(0) if o == 0 else (_ for _ in ()).throw(O.Unsupported("f scaled"))})
